@@ -44,6 +44,12 @@ def pool(tier):
     # threshold; type[...] of a generic that mentions a type variable; a function literal with and without a type-variable map
     p += [MultiValuedValue([K(i) for i in range(10, 19)]), MultiValuedValue([K(i) for i in range(10, 18)] + [K([1, 2])]), MultiValuedValue([K("s%d" % i) for i in range(9)] + [TV(bytes)]),
           SubclassValue(GenericValue(list, [TypeVarValue(Tv)])), SubclassValue(GenericValue(dict, [TV(str), TypeVarValue(Tv)]), exactly=True)]
+    # values that are equal but built through different classes / objects: a function literal with and without a type-variable map, callables that differ only in the
+    # underlying function object, two equal unhashable literals, NaN; type variables in places walk_values might not reach
+    from pyanalyze.value import KnownValueWithTypeVars, UnpackedValue
+    from pyanalyze.signature import Signature
+    p += [K(_fn_a), KnownValueWithTypeVars(_fn_a, {Tv: TV(int)}), CallableValue(Signature.make([], TV(int), callable=_fn_a)), CallableValue(Signature.make([], TV(int), callable=_fn_b)),
+          K([7]), K([7]), TypedDictValue({"a": TypedDictEntry(TV(int))}, extra_keys=TypeVarValue(Tv)), UnpackedValue(TypeVarValue(Tv))]
     if tier == "thorough":
         p += [K(2), K("b"), K([1]), K({"a": 1}), K(1j), K(frozenset()), TV(bytes), TV(complex), TV(list), TV(tuple), TV(dict), TV(type(None)),
               GenericValue(set, [TV(int)]), GenericValue(frozenset, [TV(str)]), GenericValue(tuple, [TV(int)]), GenericValue(list, [K(1)]),
@@ -68,6 +74,14 @@ def _TVARS():
         import typing
         _TV = {"T": typing.TypeVar("T"), "U": typing.TypeVar("U")}
     return _TV
+
+
+def _fn_a():
+    pass
+
+
+def _fn_b():
+    pass
 
 
 def tv_maps():
@@ -168,7 +182,10 @@ def _check_a(res, tier, ai, only=None):
         law("hashable", False)
         viol("hashable", (ai,), "hash(%s) raises %s" % (a, e))
     # substitution
-    has_tv = any(isinstance(v, TypeVarValue) for v in a.walk_values())
+    # type variables are looked for through walk_values and, independently, in the printed form (a value may hold one where walk_values does not go)
+    def shown(v):
+        return str(v).split(" with typevars ")[0]       # the map printed by KnownValueWithTypeVars is not part of the value
+    has_tv = any(isinstance(v, TypeVarValue) for v in a.walk_values()) or "~T" in shown(a)
     for mi, m in enumerate(tv_maps()):
         s = a.substitute_typevars(m)
         res.transitions += 1
@@ -178,6 +195,8 @@ def _check_a(res, tier, ai, only=None):
         else:
             left = [v for v in s.walk_values() if isinstance(v, TypeVarValue) and v.typevar in m
                     and not any(isinstance(t, TypeVarValue) and t.typevar is v.typevar for tgt in m.values() for t in tgt.walk_values())]
+            if not left and "~T" in shown(s) and any(str(k) == "~T" for k in m) and not any("~T" in str(t) for t in m.values()):
+                left = ["~T (only visible in the printed value: walk_values() does not reach it)"]
             if not law("subst-replaces-all", not left):
                 viol("subst-replaces-all", (ai,), "%s.substitute_typevars(%s) = %s still contains %s" % (a, m, s, left[0]))
     for bi in range(n):
